@@ -1,5 +1,5 @@
 (* Properties_C17.v — C17: a truncated file never yields wrong data. *)
-From ElfioV Require Import Bytes Mem Stream SectionData Strings Elfio Table Loader Load_proofs Data_proofs Codec_proofs Reader_proofs Prefix_proofs.
+From ElfioV Require Import Bytes Mem Stream SectionData Strings Elfio Table Loader Load_proofs Data_proofs Codec_proofs Reader_proofs Prefix_proofs Reload_oneseg Segtable_proofs.
 Local Open Scope N_scope.
 
 (* loading any prefix (any bytes at all) returns without a fault *)
@@ -106,6 +106,45 @@ Theorem C17_cut_program_header_entry_fails_the_load :
     snd (fst r) = false /\ snd (fst (fst r)) = racc.
 Proof. exact (load_segments_cut_entry_fails (fun _ => 0)). Qed.
 Print Assumptions C17_cut_program_header_entry_fails_the_load.
+
+(* THE WHOLE SECTION HEADER TABLE of a prefix.  [secs] are encoded entry after entry (entry size es >= the header
+   size) at shoff of the complete file f; the stream holds the first n bytes of f - any n - and is in any state, good
+   or failed.  The loop of load_sections reports, index by index, either exactly the encoded header fields or an
+   empty section (every field zero, no data): nothing in between, for any cut *)
+Theorem C17_prefix_section_table_absent_or_identical :
+  forall junk enc c shoff es (f : bytes) n (secs : list section) fuel st i racc allocs,
+    st_inv st -> is_content st = firstnN f n -> shoff < 2 ^ 62 -> shdr_size c <= es ->
+    shoff + (i + lenN secs) * es < 2 ^ 62 ->
+    Forall (fun s => s_cls s = c /\ shdr_wf s) secs ->
+    (forall k s, nth_optN secs k = Some s -> shoff + (i + k) * es + shdr_size c <= lenN f /\
+                                             sliceN f (shoff + (i + k) * es) (shdr_size c) = shdr_bytes enc s) ->
+    (length secs <= fuel)%nat ->
+    exists st' loaded allocs',
+      load_sections_loop junk fuel st [] c enc shoff es i (i + lenN secs) true racc allocs = Ok (st', rev loaded ++ racc, allocs') /\
+      st_inv st' /\ is_content st' = firstnN f n /\ Forall2 same_or_empty secs loaded.
+Proof. exact load_sections_loop_of_prefix. Qed.
+Print Assumptions C17_prefix_section_table_absent_or_identical.
+
+(* THE WHOLE PROGRAM HEADER TABLE of a prefix.  [segs] are encoded entry after entry at phoff of the complete file f;
+   the stream holds the first n bytes.  The loop of load_segments reports a list of segments that is an initial part
+   of the table, each with exactly the encoded fields and the members the rule selects (never a segment with partly
+   read fields); when it reports "good" the list is the whole table; and it reports "good" whenever every entry lies
+   inside the prefix *)
+Theorem C17_prefix_program_table_initial_part :
+  forall enc c phoff es (f : bytes) n secs (segs : list segment) fuel st i racc allocs,
+    is_fail st = false -> st_inv st -> is_content st = firstnN f n -> phoff < 2 ^ 62 -> phdr_size c <= es ->
+    phoff + (i + lenN segs) * es < 2 ^ 62 ->
+    Forall (fun g => g_cls g = c /\ phdr_wf g) segs ->
+    (forall k g, nth_optN segs k = Some g -> phoff + (i + k) * es + phdr_size c <= lenN f /\
+                                             sliceN f (phoff + (i + k) * es) (phdr_size c) = phdr_bytes enc g) ->
+    (length segs <= fuel)%nat ->
+    exists st' loaded ok allocs',
+      load_segments_loop fuel st [] secs enc c phoff es i (i + lenN segs) true racc allocs = Ok (st', rev loaded ++ racc, ok, allocs') /\
+      Forall2 (seg_reported secs) (firstn (length loaded) segs) loaded /\
+      (ok = true -> length loaded = length segs) /\
+      ((forall k, k < lenN segs -> phoff + (i + k) * es + phdr_size c <= n) -> ok = true).
+Proof. exact (load_segments_loop_of_prefix (fun _ => 0)). Qed.
+Print Assumptions C17_prefix_program_table_initial_part.
 
 (* ... and an input without a decodable header is refused, whatever else it holds *)
 Theorem C17_no_header_no_load :
